@@ -178,6 +178,27 @@ pub fn followups_done(
         }
 
         // (d) keys in use at a parent are keys the child still has.
+        for detail in stale_child_keys(r) {
+            out.push(("revocation_not_done".to_string(), detail));
+        }
+        out
+    })
+}
+
+
+/// Keys that a (local) parent still has in use for a child although the
+/// child no longer has them: the revocation that should have followed a
+/// key roll or a dropped class did not happen.
+pub fn stale_child_keys(r: &Runner) -> Vec<String> {
+    hooks::with_faults_suspended(|| {
+        let mut out: Vec<(String, String)> = Vec::new();
+        let inst = r.world.inst(0);
+        if !inst.is_up() {
+            return Vec::new()
+        }
+        let rt = inst.rt();
+        let mut handles = rt.ca_manager().ca_handles().unwrap_or_default();
+        handles.sort_by_key(|h| h.to_string());
         for handle in &handles {
             let pname = handle.to_string();
             let Ok(parent) = rt.ca_manager().get_ca(handle) else { continue };
@@ -219,7 +240,7 @@ pub fn followups_done(
                 }
             }
         }
-        out
+        out.into_iter().map(|x| x.1).collect()
     })
 }
 
